@@ -524,3 +524,18 @@ Definition to_mobs (m : adj) (w : list (node * Z)) (s : sobs) : mobs :=
   end.
 Definition mon_case (c : adj * list (node * Z) * list sobs) : bool :=
   let '(m, w, l) := c in forallb (fun s => mon (to_mobs m w s)) l.
+
+(* JobGraph with probability-0 jobs (weight 0 in the path search, runtime still summed) and slo's:
+   critical_path_runtime sums the runtimes over the path, completion_time sums slo-or-runtime *)
+Definition g_observe_jobgraph (p : adj * list (node * Z) * list node * list (node * Z)) : val :=
+  let '(m, rt, p0, slo) := p in
+  match of_mapping m with
+  | Err e => L [I 1; I e]
+  | Ok g =>
+      let r := w_of rt in
+      let w0 := fun n => if mem n p0 then 0 else r n in
+      let s := fun n => match lookup n slo with Some x => x | None => r n end in
+      L [ vres I (bind (longest_path_w w0 g) (fun path => Ok (sum_w r path)));
+          vres I (bind (longest_path_w w0 g) (fun path => Ok (sum_w s path)));
+          vresl (longest_path_w w0 g) ]
+  end.
